@@ -63,17 +63,6 @@ Proof.
 Qed.
 
 (* ---------- Top-K ---------- *)
-(* LOCALDEF *)
-Definition rtopk_attach (s : store) (meta : bytes) (er acc : N) : outcome rtopk :=
-  let k := atoi (r_hget s meta f_k) in
-  let hkey := match r_hget s meta f_heapkey with Some b => b | None => [] end in
-  let smeta := match r_hget s meta f_sketchkey with Some b => b | None => [] end in
-  match rcms_attach s smeta with
-  | Ok sk => Ok (mkRtopk k er acc sk hkey meta)
-  | Err e => Err e
-  | Panic e => Panic e
-  end.
-(* ENDLOCALDEF *)
 Theorem rtopk_attach_after_new s k rows cols er acc ertxt acctxt skey smeta hkey meta t s' :
   rtopk_new s k rows cols er acc ertxt acctxt skey smeta hkey meta = (Ok t, s') ->
   meta <> smeta -> (forall r, row_key skey r <> smeta) -> (forall r, row_key skey r <> meta) ->
